@@ -59,8 +59,10 @@ fn request_bytes(n: usize) -> Vec<u8> {
 pub async fn run_case(case: Vec<String>) -> String {
     *READ_GATE.lock() = None;
     // "in": a connection accepted as soon as the listener runs; "in@<ms>": accepted after the listener has been waiting that long
-    let incoming = case[2] == "in" || case[2].starts_with("in@");
-    let remote: SocketAddr = "10.9.9.9:5060".parse().unwrap();
+    let incoming = case[2] == "in" || case[2].starts_with("in@") || case[2] == "inm";
+    // "inm" / "outm": the peer's address is an IPv4-mapped IPv6 address (an IPv4 peer on a dual-stack socket) - an address like any other
+    let mapped = case[2] == "inm" || case[2] == "outm";
+    let remote: SocketAddr = if mapped { "[::ffff:10.9.9.9]:5060".parse().unwrap() } else { "10.9.9.9:5060".parse().unwrap() };
     let delivered: Arc<Mutex<usize>> = Default::default();
     let mut builder = Endpoint::builder();
     let factory = MockStreamFactory::<false>::new(true, 20000);
@@ -74,7 +76,7 @@ pub async fn run_case(case: Vec<String>) -> String {
     MockListenerBuilder::<false> { rx }.spawn(&mut builder, "10.0.0.1:5060").await.unwrap();
     let endpoint = builder.build();
     settle_now().await;
-    let uri = endpoint.parse_uri("sip:bob@10.9.9.9").unwrap();
+    let uri = endpoint.parse_uri(if mapped { "sip:bob@[::ffff:10.9.9.9]" } else { "sip:bob@10.9.9.9" }).unwrap();
 
     let mut held: Vec<TpHandle> = vec![];
     let mut extra: Vec<TpHandle> = vec![];
